@@ -8,6 +8,7 @@ import (
 	"github.com/go-logr/logr"
 	corev1 "k8s.io/api/core/v1"
 	apiequality "k8s.io/apimachinery/pkg/api/equality"
+	"k8s.io/apimachinery/pkg/api/resource"
 	metav1 "k8s.io/apimachinery/pkg/apis/meta/v1"
 	"k8s.io/apimachinery/pkg/types"
 	"sigs.k8s.io/controller-runtime/pkg/reconcile"
@@ -32,19 +33,24 @@ func zzTpl(id string) corev1.PodTemplateSpec {
 		t.Annotations = map[string]string{"checksum/config": "abc"}
 	case "Bn":
 		t.Name = "agent" // as copied from a Pod manifest; defaulting of the ExtendedDaemonSet clears it later
+	case "Bq":
+		t.Spec.Containers[0].Resources.Requests = corev1.ResourceList{corev1.ResourceMemory: resource.MustParse("1Gi")}
+	case "Bq2":
+		// the same quantity written differently: another text, so another template and another hash
+		t.Spec.Containers[0].Resources.Requests = corev1.ResourceList{corev1.ResourceMemory: resource.MustParse("1073741824")}
 	}
 	return t
 }
 
 func zzImageOf(id string) string {
-	if id == "Bl" || id == "Ba" || id == "Bn" {
+	if id == "Bl" || id == "Ba" || id == "Bn" || id == "Bq" || id == "Bq2" {
 		return "B"
 	}
 	return id
 }
 
 func zzPick(label string) string {
-	switch nondet.String(label, "A", "B", "C", "Bl", "Ba", "Bn") {
+	switch nondet.String(label, "A", "B", "C", "Bl", "Ba", "Bn", "Bq", "Bq2") {
 	case "A":
 		return "A"
 	case "B":
@@ -55,6 +61,10 @@ func zzPick(label string) string {
 		return "Ba"
 	case "Bn":
 		return "Bn"
+	case "Bq":
+		return "Bq"
+	case "Bq2":
+		return "Bq2"
 	}
 	return "C"
 }
@@ -137,4 +147,5 @@ func ZZ_C13_podTemplate() {
 	nondet.Reach("C13.pt.updated", old != "" && old != cur && len(c.Writes()) == 1)
 	nondet.Reach("C13.pt.metadata-only-change", old == "B" && cur == "Bl" && len(c.Writes()) == 1)
 	nondet.Reach("C13.pt.unchanged", old == cur && len(c.Writes()) == 0)
+	nondet.Reach("C13.pt.quantity-rewritten", old == "Bq" && cur == "Bq2" && len(c.Writes()) == 1)
 }
